@@ -5,7 +5,11 @@ import (
 	"fmt"
 	badger "github.com/dgraph-io/badger/v2"
 	"strconv"
+	"strings"
 	"testing"
+
+	"github.com/attestantio/dirk/core"
+	"github.com/attestantio/dirk/services/checker"
 )
 
 type fcase struct {
@@ -21,6 +25,11 @@ func (f fcase) String() string {
 
 var faultSites = []string{
 	"lookup", "check", "isunlocked-error", "locked-unlock-error", "locked-no-passphrase", "sealed-account",
+	// an account the operator unlocked through the account manager and locked again, on an instance configured with no
+	// account passphrases: locked, and nothing the instance knows opens it.  (Not a site: the same with *other* passphrases
+	// configured - the wallet libraries keep the decrypted key after the first unlock and accept any passphrase afterwards, so
+	// there the unlock step succeeds and the property has nothing to say.)
+	"relocked-account-no-passphrases",
 	"rules-unknown", "rules-failed", "rules-denied", "rules-short", "rules-empty",
 	"store-fetch-error", "store-write-error", "store-write-error-behind-refused-entry", "record-wrong-length", "record-undecodable", "record-empty", "record-one-byte", "store-closed",
 	"sign-error", "domain-31-bytes", "domain-33-bytes", "data-31-bytes",
@@ -121,7 +130,12 @@ func runFaultMatrix(t *testing.T, rc *RunCtx) {
 	rc.Stats.Seen("cases", fc.String())
 	rc.Sample = map[string]any{"matrix_case": fc.String(), "matrix_size": len(m)}
 	plan := NewFaultPlan()
-	w := newW1(t, rc, SchedCfg{MaxSteps: 1 << 20}, plan)
+	var w *concWorld
+	if strings.HasPrefix(fc.Site, "relocked-") {
+		w = newW1Cfg(t, rc, SchedCfg{MaxSteps: 1 << 20}, StdPopulation(t), InstCfg{Plan: plan, AccountManager: true, NoAccountPassphrases: fc.Site == "relocked-account-no-passphrases"})
+	} else {
+		w = newW1(t, rc, SchedCfg{MaxSteps: 1 << 20}, plan)
+	}
 	defer w.close()
 	pop := w.pop
 	uniq := uint64(0)
@@ -148,6 +162,24 @@ func runFaultMatrix(t *testing.T, rc *RunCtx) {
 		plan.Set("isunlocked", kn, "locked")
 		plan.Set("unlock", kn, "nopass")
 	case "sealed-account":
+	case "relocked-account-no-passphrases":
+		// The operator opens every account of the request with its passphrase, then locks the one at the position again.
+		creds := &checker.Credentials{RequestID: "operator", Client: "client1", IP: "10.0.0.1"}
+		w.s.Direct(func() {
+			for i := range o.Entries {
+				a := pop.Accts[o.Entries[i].Acct]
+				pass := []byte("pass")
+				if a.Locked {
+					pass = []byte("a passphrase nobody configured")
+				}
+				if res, err := w.inst.AcctMgr.Unlock(context.Background(), creds, a.Path, pass); err != nil || res != core.ResultSucceeded {
+					t.Fatalf("%s: unlocking %s: %v %v", fc, a.Path, res, err)
+				}
+			}
+			if res, err := w.inst.AcctMgr.Lock(context.Background(), creds, pop.Accts[e.Acct].Path); err != nil || res != core.ResultSucceeded {
+				t.Fatalf("%s: locking %s: %v %v", fc, pop.Accts[e.Acct].Path, res, err)
+			}
+		})
 	case "rules-unknown", "rules-failed", "rules-denied":
 		plan.Set("rules", kn, fc.Site[6:])
 	case "rules-short":
@@ -283,7 +315,7 @@ func runFaultMatrix(t *testing.T, rc *RunCtx) {
 	}
 	// Reach: the planned fault must actually have fired (except input-shaped faults).
 	switch fc.Site {
-	case "sealed-account", "record-wrong-length", "record-undecodable", "record-empty", "record-one-byte", "store-closed", "domain-31-bytes", "domain-33-bytes", "data-31-bytes", "domain-31-bytes-run", "data-31-bytes-run",
+	case "sealed-account", "relocked-account-no-passphrases", "record-wrong-length", "record-undecodable", "record-empty", "record-one-byte", "store-closed", "domain-31-bytes", "domain-33-bytes", "data-31-bytes", "domain-31-bytes-run", "data-31-bytes-run",
 		"data-31-domain-33-bytes", "data-28-domain-36-bytes", "data-33-domain-31-bytes":
 		rc.Stats.Inc("fault_input:"+fc.Site, 1)
 	default:
